@@ -778,6 +778,88 @@ Definition db_merge (d : db) (k : disk) (order : list N) : db * disk * option ee
      None, ev1 ++ ev2 ++ ev3 ++ ev4 ++ ev5 ++ ev6 ++ ev7 ++ ev8 ++ ev9)
   end.
 
+(* ---- Merge with writers racing the scan ------------------------------------------------ *)
+(* Merge releases the engine lock after it has rotated the active file and taken its list of input
+   files; Put and Delete calls of other goroutines then run between any two steps of the scan (each
+   is one critical section of the engine lock; the scan reads the index once per record).  [pro]:
+   the calls that run before the scan starts; [sched]: one slot per scanned record, run right before
+   that record is looked up in the index. *)
+Inductive mop := MPut (k v : bytes) | MDel (k : bytes).
+
+Fixpoint run_mops (d : db) (ops : list mop) : db * list event :=
+  match ops with
+  | [] => (d, [])
+  | MPut k v :: rest => let '(d1, _, e1) := db_put d k v in let '(d2, e2) := run_mops d1 rest in (d2, e1 ++ e2)
+  | MDel k :: rest => let '(d1, _, e1) := db_delete d k in let '(d2, e2) := run_mops d1 rest in (d2, e1 ++ e2)
+  end.
+
+Fixpoint merge_file_i (c : cfg) (fid non_merge : N) (d : db) (m : mstate) (rs : list (record * pos))
+         (sched : list (list mop)) : db * merge_step_res * list (list mop) * list event :=
+  match rs with
+  | [] => (d, MsOk m, sched, [])
+  | (r, p) :: rest =>
+    let '(d1, ev0) := run_mops d (hd [] sched) in
+    let sched' := tl sched in
+    match idx_get (d_index d1) (r_key r) with
+    | Some q =>
+      if (p_fid q =? fid) && (p_off q =? p_off p) && (p_bid q =? p_bid p) then
+        let '(m1, np, ev1) := ms_append c m (mkRec (r_type r) (r_key r) (r_value r) 0) in
+        if non_merge <=? ms_active_id m1 then (d1, MsErr EMergeOutputTooLarge m1, sched', ev0 ++ ev1) else
+        let '(m2, ev2) := ms_hint_append c m1 (r_key r) np in
+        let '(d2, res, sched'', ev3) := merge_file_i c fid non_merge d1 m2 rest sched' in
+        (d2, res, sched'', ev0 ++ ev1 ++ ev2 ++ ev3)
+      else let '(d2, res, sched'', ev3) := merge_file_i c fid non_merge d1 m rest sched' in (d2, res, sched'', ev0 ++ ev3)
+    | None => let '(d2, res, sched'', ev3) := merge_file_i c fid non_merge d1 m rest sched' in (d2, res, sched'', ev0 ++ ev3)
+    end
+  end.
+
+Fixpoint merge_files_i (c : cfg) (d : db) (order : list N) (non_merge : N) (m : mstate) (sched : list (list mop))
+  : db * merge_step_res * list event :=
+  match order with
+  | [] => (d, MsOk m, [])
+  | fid :: rest =>
+    match older_get (d_older d) fid with
+    | None => merge_files_i c d rest non_merge m sched
+    | Some f =>
+      let '(f', ev0) := scan_touch (c_io c) (FData fid) f in
+      let d' := set_older d (older_set (d_older d) fid f') in
+      let '(d1, res, sched', ev1) := merge_file_i c fid non_merge d' m (lf_recs f') sched in
+      match res with
+      | MsErr e m' => (d1, MsErr e m', ev0 ++ ev1)
+      | MsOk m' => let '(d2, res2, ev2) := merge_files_i c d1 rest non_merge m' sched' in (d2, res2, ev0 ++ ev1 ++ ev2)
+      end
+    end
+  end.
+
+Definition db_merge_i (d : db) (k : disk) (order : list N) (pro : list mop) (sched : list (list mop))
+  : db * disk * option eerr * list event :=
+  let c := d_cfg d in
+  let '(d1, ev1) := db_rotate d in
+  let non_merge := d_active_id d1 in
+  let ev2 := match k_merge k with Some _ => [EvRemoveAllMerge; EvMkdirMerge] | None => [EvMkdirMerge] end in
+  let '(d1p, evp) := run_mops d1 pro in
+  let '(a0, ev3) := h_open (c_io c) (MData 0) false lf_empty in
+  let '(h0, ev4) := hf_open_new (c_io c) in
+  let m0 := mkMs 0 a0 [] h0 in
+  let '(d2, res, ev5) := merge_files_i c d1p order non_merge m0 sched in
+  match res with
+  | MsErr e m =>
+    (d2, mkDisk (k_data k) (k_hint k)
+           (Some (mkMdir (older_set (ms_older m) (ms_active_id m) (ms_active m)) (Some (ms_hint m)) None)),
+     Some e, ev1 ++ ev2 ++ evp ++ ev3 ++ ev4 ++ ev5)
+  | MsOk m =>
+    let '(h1, ev6) := hf_close (c_io c) (ms_hint m) in
+    let '(a1, ev7) := h_close (c_io c) (MData (ms_active_id m)) (ms_active m) in
+    let '(o1, ev8) := ms_close_older (c_io c) (ms_older m) in
+    let ev9 := if c_io c =? io_MMap
+               then [EvCreate MMarker; EvTrunc MMarker mmapBlockSize; EvWrite MMarker 4 (WMarker non_merge);
+                     EvSync MMarker; EvTrunc MMarker 4; EvClose MMarker]
+               else [EvCreate MMarker; EvWrite MMarker 4 (WMarker non_merge); EvSync MMarker; EvClose MMarker] in
+    (d2, mkDisk (k_data k) (k_hint k)
+           (Some (mkMdir (older_set o1 (ms_active_id m) a1) (Some h1) (Some non_merge))),
+     None, ev1 ++ ev2 ++ evp ++ ev3 ++ ev4 ++ ev5 ++ ev6 ++ ev7 ++ ev8 ++ ev9)
+  end.
+
 (* ---- crash images -------------------------------------------------------------------- *)
 (* a file after a crash: [cut] bytes survive (cut = physical size for a process-only crash);
    complete records are those that end at or before the cut *)
